@@ -127,13 +127,27 @@ def run_history(case, rng):
             return coro
         sess = Session()
         roots = [root(number) for number in range(n_roots)]
+        if kind == 'fail' and rng.random() < 0.5:
+            # a bystander that is still queued when the run fails and whose clean-up raises
+            # while it is torn down: must not replace the root's exception
+            async def bystander():
+                try:
+                    await (time + 50)
+                finally:
+                    raise Boom('bystander clean-up')
+            extra = bystander()
+            extra.__name__ = extra.__qualname__ = 'bystander'
+            roots.append(extra)
         till = None
         if kind == 'till':
             till = start + rng.choice([0, 0.5, 1, 1.5, 10])
             stats['till_runs'] += 1
         outcome = sess.run(*roots, start=start, till=till)
         for coro in roots:
-            coro.close()
+            try:
+                coro.close()
+            except Boom:
+                pass        # the bystander's clean-up, now outside of any run
         stats['activations'] += sess.n
         for v in sess.violations:
             if v['mechanism'].startswith('kernel-'):
